@@ -244,58 +244,107 @@ def fifo_queue(tree, rep, rule, prog, cname, attr, append_out, drain_out):
               site(fn, ci.file), key="%s:%s.%s:drain" % (rule, cname, attr))
 
 
-def observer_handoff_atomic(tree, rep, rule):
-    """SequenceObserver: whoever takes a waiting Deferred takes the oldest result in the same step (and the other way round).
-    A result that is taken later (inside a lambda / another function run by the eventual queue) can meanwhile be handed to
-    another caller: reordering, or a Deferred that never fires."""
+def _seqobs_takes(tree):
+    """per method of SequenceObserver: the pop()/popleft() calls on _results / _observers, split into those made by the method itself
+    and those deferred into a lambda / nested function"""
     OBS = "src/wormhole/observer.py"
-    for meth in ("fire", "when_next_event"):
-        fn = tree.func(OBS, "SequenceObserver", meth)
-        takes = []
+    cls = tree.cls(OBS, "SequenceObserver")
+    out = {}
+    for fn in [m for m in cls.body if isinstance(m, (ast.FunctionDef, ast.AsyncFunctionDef))]:
+        own, lazy = [], []
         for n in ast.walk(fn):
             if isinstance(n, ast.Call) and isinstance(n.func, ast.Attribute) and n.func.attr in ("pop", "popleft") \
                     and is_self_attr(n.func.value) and n.func.value.attr in ("_results", "_observers"):
-                takes.append(n)
-        lazy = []
-        for t in takes:
-            p_ = getattr(t, "_parent", None)
-            while p_ is not None and p_ is not fn:
-                if isinstance(p_, (ast.Lambda, ast.FunctionDef, ast.AsyncFunctionDef)):
-                    lazy.append(t)
-                    break
-                p_ = getattr(p_, "_parent", None)
-        rep.check(rule, "SequenceObserver.%s takes results / waiting Deferreds synchronously (%d takes, none deferred)" % (meth, len(takes)),
-                  bool(takes) and not lazy, site(lazy[0] if lazy else fn, OBS), key="%s:SequenceObserver.%s:atomic-handoff" % (rule, meth),
-                  what="SequenceObserver.%s defers taking a result / observer to a later turn: another get_message() can take it first "
-                       "(messages out of order, or a Deferred that never fires)" % meth)
-    own, foreign = class_writers(tree, "SequenceObserver", "_results")
-    for w in own:
-        if w.kind in ("call:pop", "call:popleft"):
-            rep.check(rule, "SequenceObserver._results is taken from only in fire / when_next_event (here %s)" % w.fn,
-                      w.fn in ("fire", "when_next_event"), w.site, key="%s:SequenceObserver._results:taker:%s" % (rule, w.fn))
+                p_ = getattr(n, "_parent", None)
+                deferred = False
+                while p_ is not None and p_ is not fn:
+                    if isinstance(p_, (ast.Lambda, ast.FunctionDef, ast.AsyncFunctionDef)):
+                        deferred = True
+                        break
+                    p_ = getattr(p_, "_parent", None)
+                (lazy if deferred else own).append(n)
+        out[fn.name] = (fn, own, lazy)
+    return out
+
+
+def observer_handoff_atomic(tree, rep, rule):
+    """SequenceObserver pairs the oldest event with the oldest waiting Deferred.  Whatever the layout (pairing inside fire(), or in a
+    method run by the eventual queue), the pairing is ONE step: the method that takes a waiting Deferred takes the event it hands to it
+    in the same activation, never inside a lambda / nested function that runs later (another get_message() could take it first:
+    reordering, or a Deferred that never fires).  And when the pairing does not happen inside fire() itself, an event can sit in
+    _results while an older Deferred waits, so no method that creates a Deferred may help itself to _results."""
+    OBS = "src/wormhole/observer.py"
+    takes = _seqobs_takes(tree)
+    n_pair = 0
+    for name, (fn, own, lazy) in sorted(takes.items()):
+        if not own and not lazy:
+            continue
+        what_ = lambda c: c.func.value.attr
+        obs_takes = [c for c in own if what_(c) == "_observers"]
+        res_takes = [c for c in own if what_(c) == "_results"]
+        creates = any(isinstance(c, ast.Call) and (dotted(c.func) or "").split(".")[-1] == "Deferred" for c in ast.walk(fn))
+        ok = not lazy and (not obs_takes or bool(res_takes)) and (not res_takes or bool(obs_takes) or creates)
+        n_pair += 1 if obs_takes else 0
+        rep.check(rule, "SequenceObserver.%s takes results / waiting Deferreds synchronously, an event together with the Deferred it is for "
+                  "(%d takes, none deferred)" % (name, len(own)), ok, site((lazy or own or [fn])[0], OBS),
+                  key="%s:SequenceObserver.%s:atomic-handoff" % (rule, name),
+                  what="SequenceObserver.%s defers taking a result / observer to a later turn (or takes one without the other): another "
+                       "get_message() can take it first (messages out of order, or a Deferred that never fires)" % name)
+    pairing = [name for name, (fn, own, lazy) in takes.items() if any(c.func.value.attr == "_observers" for c in own + lazy)]
+    if not pairing:
+        raise AnalysisError("SequenceObserver: no method takes a waiting Deferred out of _observers")
+    if pairing != ["fire"]:
+        # pairing happens in a method of its own (run by the eventual queue): readers must queue up behind the waiting ones
+        for name, (fn, own, lazy) in sorted(takes.items()):
+            creates = any(isinstance(c, ast.Call) and (dotted(c.func) or "").split(".")[-1] == "Deferred" for c in ast.walk(fn))
+            if creates:
+                direct = [c for c in own + lazy if c.func.value.attr == "_results"]
+                rep.check(rule, "SequenceObserver.%s (which hands out the Deferred) leaves _results to the pairing step %s: a new reader "
+                          "cannot overtake an older waiting one" % (name, pairing), not direct, site((direct or [fn])[0], OBS),
+                          key="%s:SequenceObserver.%s:no-bypass" % (rule, name),
+                          what="SequenceObserver.%s takes an event from _results itself while the pairing of events and waiting Deferreds "
+                               "happens later, in %s: a get_message() issued between the arrival of a message and its delivery overtakes "
+                               "the older, still waiting get_message() (messages out of order)" % (name, pairing))
 
 
 def observers_fire_eventually(tree, rep, rule):
-    """OneShotObserver / SequenceObserver never run a waiting Deferred's callbacks synchronously: `d.callback` / `d.errback` only ever
-    appear as the function handed to the eventual queue.  A subscriber that is called back from inside when_fired() / fire() runs in
-    the middle of whatever the caller was doing (the Connector's select(): the Manager hears `lost` before `made`; the Boss's closed():
-    application code runs inside a transition)"""
+    """OneShotObserver / SequenceObserver never run a waiting Deferred's callbacks inside the caller's activation: `d.callback` /
+    `d.errback` are either handed to the eventual queue, or called directly inside a method that itself only ever runs from the
+    eventual queue (every mention of self.<m> in the class is an argument of eventually()).  A subscriber that is called back from
+    inside when_fired() / fire() runs in the middle of whatever the caller was doing (the Connector's select(): the Manager hears `lost`
+    before `made`; the Boss's closed(): application code runs inside a transition)"""
     OBS = "src/wormhole/observer.py"
     n = 0
     for cname in ("OneShotObserver", "SequenceObserver"):
         cls = tree.cls(OBS, cname)
-        direct, deferred = [], 0
+        methods = {m.name: m for m in cls.body if isinstance(m, (ast.FunctionDef, ast.AsyncFunctionDef))}
+        is_ev = lambda c: isinstance(c, ast.Call) and isinstance(c.func, ast.Attribute) and c.func.attr == "eventually"
+        # methods that only run from the eventual queue
+        mentions = {}
         for c in ast.walk(cls):
-            if isinstance(c, ast.Call):
+            if is_self_attr(c) and c.attr in methods:
+                par = getattr(c, "_parent", None)
+                mentions.setdefault(c.attr, []).append(is_ev(par) and c in par.args)
+        queued_only = {m for m, uses in mentions.items() if uses and all(uses)}
+        direct, deferred = [], 0
+        for mname, m in methods.items():
+            for c in ast.walk(m):
+                if not isinstance(c, ast.Call):
+                    continue
                 if isinstance(c.func, ast.Attribute) and c.func.attr in ("callback", "errback"):
-                    direct.append(c)
+                    if mname in queued_only:
+                        deferred += 1
+                    else:
+                        direct.append(c)
                 for a in c.args:
                     if isinstance(a, ast.Attribute) and a.attr in ("callback", "errback"):
-                        deferred += 1 if (isinstance(c.func, ast.Attribute) and c.func.attr == "eventually") else 0
-                        if not (isinstance(c.func, ast.Attribute) and c.func.attr == "eventually"):
+                        if is_ev(c):
+                            deferred += 1
+                        else:
                             direct.append(c)
         n += deferred
-        rep.check(rule, "%s hands every d.callback / d.errback to the eventual queue (%d sites), never calls one directly" % (cname, deferred),
+        rep.check(rule, "%s runs every d.callback / d.errback from the eventual queue (%d sites: handed to eventually(), or inside a method "
+                  "that only eventually() runs: %s), never inside the caller" % (cname, deferred, sorted(queued_only) or "-"),
                   not direct and deferred > 0, site(direct[0] if direct else cls, OBS), key="%s:%s:fires-eventually" % (rule, cname),
                   what="%s fires a waiting Deferred synchronously (%s): the subscriber's callback runs re-entrantly inside the caller "
                        "(e.g. a connection lost between consider() and accept() is reported to the Manager before connection_made, and "
@@ -335,6 +384,25 @@ def waiting_reads_cancel_safe(tree, rep, rule):
               "get_message() cannot swallow the next message)", ok, site(fn, OBS), key="%s:SequenceObserver.when_next_event:cancel-safe" % rule,
               what="a get_message() Deferred that the application cancels (addTimeout) stays in SequenceObserver._observers: the next message is "
                    "handed to it and silently dropped - the application receives the sequence with a record missing")
+    # ... and a waiting Deferred stays in _observers (where the canceller finds it) until the very activation that calls it back: a
+    # method that takes it out and only SCHEDULES d.callback(event) leaves a turn in which a cancel() (addTimeout expiring together with
+    # the message's arrival) finds nothing to remove - the callback then raises AlreadyCalledError and the event, already taken out of
+    # _results, is lost
+    bad = []
+    for name, (mfn, own, lazy) in sorted(_seqobs_takes(tree).items()):
+        if not any(c.func.value.attr == "_observers" for c in own + lazy):
+            continue
+        for c in ast.walk(mfn):
+            if isinstance(c, ast.Call) and isinstance(c.func, ast.Attribute) and c.func.attr == "eventually" and c.args \
+                    and isinstance(c.args[0], ast.Attribute) and c.args[0].attr == "callback":
+                bad.append(c)
+    rep.check(rule, "SequenceObserver: the method that takes a waiting Deferred out of _observers calls it back in the same activation (no "
+              "turn in which a cancelled Deferred is neither in the list nor called)", not bad, site((bad or [fn])[0], OBS),
+              key="%s:SequenceObserver:taken-and-called-together" % rule,
+              what="SequenceObserver takes a waiting Deferred out of _observers and only schedules its callback (%s): a get_message() "
+                   "cancelled in between (addTimeout expiring in the turn the message arrives) is not found by its canceller, the scheduled "
+                   "callback raises AlreadyCalledError and the message - already removed from _results - is lost"
+                   % (ast.unparse(bad[0])[:70] if bad else ""))
 
 
 def eventual_turn_isolates_calls(tree, rep, rule):
